@@ -13,9 +13,11 @@
      C12_monitor     : forall c t0 ops, freed_in_same_poll c ops (fst (srun c t0 ops)) = false ->
                                         c12_ok c ops (fst (srun c t0 ops)) = true
    (clauses (b) exactly one throttle reply per refused request, never yielded, and (c) refused
-   only with L in flight outside the class FreedInSamePoll).  The simulation they need
-   (ServerSim*.v: observer vs model through every polling loop) is proved up to the poll step
-   (ServerSim6.top_poll); the verdict flags are not threaded through it yet. *)
+   only with L in flight outside the class FreedInSamePoll).  The exact statements, for every
+   transport, are pinned as ServerSpec.stmt_s12_rel / stmt_s12 (flag level: stmt_s_v12a, _v12b,
+   _v12c_rel, _v12c).  The simulation they need (ServerSim*.v: observer vs model) is proved along
+   every run (ServerSim6.run_top); these flags, decided in the middle of a poll, are not threaded
+   through it yet. *)
 From Coq Require Import List Bool Arith NArith.
 Import ListNotations.
 From TarpcV Require Import Base Transport TimerWheel Server ServerMon ServerWitness ServerState ServerProps.
